@@ -1,5 +1,5 @@
 (* C14/Witness.v — non-vacuity of the hypotheses, concrete evaluations, the refutation witnesses. *)
-From Verif Require Import Common.Base Generated.C14Opaque C14.Model C14.Proofs C14.UseModel C14.UseProofs.
+From Verif Require Import Common.Base Generated.C14Opaque C14.Model C14.Proofs C14.UseModel C14.UseProofs C14.Harness C14.Clauses.
 From Coq Require Import String Ascii.
 Local Open Scope string_scope.
 
@@ -30,8 +30,9 @@ Example ex_confmap : render opaque PConfmap headers "s3cr3t" = "{f:{k:" ++ dquot
 Proof. vm_compute. reflexivity. Qed.
 Example ex_confmap_key : render opaque PConfmap SMapKey "s3cr3t" = "{[REDACTED]:" ++ dquote ++ "v" ++ dquote ++ "}".
 Proof. vm_compute. reflexivity. Qed.
-Example ex_confmap_array : render opaque PConfmap (SField true (SArray SBare)) "s3cr3t" = "{f:<raw [1]configopaque.String>}".
-Proof. vm_compute. reflexivity. Qed.
+Example ex_confmap_array : render opaque PConfmap (SField true (SArray SBare)) "s3cr3t" = "{f:[" ++ dquote ++ "[REDACTED]" ++ dquote ++ "]}"
+  /\ shows PConfmap (SField true (SArray (SMarsh SBare))) = true.
+Proof. vm_compute. split; reflexivity. Qed.
 Example ex_ptrptr : has_addr (render opaque (PFmt "v" no_flags) (SPtr (SPtr SBare)) "s3cr3t") = true.
 Proof. vm_compute. reflexivity. Qed.
 
@@ -48,8 +49,8 @@ Example ex_unexported_x : render opaque (PFmt "x" no_flags) (SField false SBare)
 Proof. vm_compute. reflexivity. Qed.
 Example ex_zap_key : render opaque PZapAny SMapKey "s3cr3t" = "{" ++ dquote ++ "k" ++ dquote ++ ":{" ++ dquote ++ "s3cr3t" ++ dquote ++ ":" ++ dquote ++ "v" ++ dquote ++ "}}".
 Proof. vm_compute. reflexivity. Qed.
-Example ex_squash : unmarshal opaque UConfSquashUnmarshaler "s3cr3t" = Stored "[REDACTED]" /\ unmarshal opaque UConfSquashPlain "s3cr3t" = Stored "s3cr3t".
-Proof. vm_compute. split; reflexivity. Qed.
+Example ex_squash : unmarshal opaque UConfSquashUnmarshaler "s3cr3t" = Stored "s3cr3t" /\ plain_ctx UConfSquashUnmarshaler = true /\ unmarshal opaque UConfSquashPlain "s3cr3t" = Stored "s3cr3t".
+Proof. vm_compute. repeat split. Qed.
 
 (* a method table that looks at the secret is NOT constant: the hypothesis of the central theorem
    has content, and such a table does leak through a Stringer verb *)
@@ -100,4 +101,29 @@ Example ex_grpc : grpc_add_headers cfg_ex [("authorization", ["caller"])]
 Proof. vm_compute. reflexivity. Qed.
 Example ex_tls : load_certificate (TlsCfg "" "CERT" "" "KEY") = TlsPair (FromPem "CERT") (FromPem "KEY")
   /\ load_certificate (TlsCfg "f" "CERT" "" "KEY") = TlsErrCertTwice /\ load_certificate (TlsCfg "" "CERT" "" "") = TlsErrBothOrNeither.
+Proof. vm_compute. repeat split. Qed.
+
+(* colliding keys: the hypothesis NoDup (ckeys cfg) fails, the weaker theorems still apply *)
+Definition cfg_collide : hdrs := [("x-tok", "s3cr3t-1"); ("X-Tok", "s3cr3t-2")].
+Example ex_collide : ~ NoDup (ckeys cfg_collide) /\
+  hget (http_set_all cfg_collide []) "X-Tok" = Some "s3cr3t-2" /\
+  md_get (grpc_add_headers cfg_collide []) "x-tok" = ["s3cr3t-1"; "s3cr3t-2"].
+Proof.
+  split; [|split; vm_compute; reflexivity].
+  intros H. inversion H as [|? ? N _]; subst. apply N. simpl. now left.
+Qed.
+
+(* the clause checker has content: a recorded rendering that shows the secret, a header that arrives
+   redacted, a text stored differently are rejected; the corresponding good cases are accepted *)
+Example ex_clauses :
+  prop_code (CRender (SField true SBare) (A "hunter2-s3cr3t") [(PFmt "v" no_flags, A "{hunter2-s3cr3t}", false)]) = 1 /\
+  prop_code (CRender (SField true SBare) (A "hunter2-s3cr3t") [(PFmt "x" no_flags, A "{68756e746572322d733363723374}", false)]) = 1 /\
+  prop_code (CRender (SField true SBare) (A "hunter2-s3cr3t") [(PFmt "v" no_flags, A "{***}", false)]) = 5 /\
+  prop_code (CRender (SField true SBare) (A "hunter2-s3cr3t") [(PFmt "v" no_flags, A "{[REDACTED]}", false)]) = 0 /\
+  prop_code (CRender (SField false SBare) (A "hunter2-s3cr3t") [(PFmt "v" no_flags, A "{hunter2-s3cr3t}", false)]) = 0 /\
+  prop_code (CUnm UExpScalar (A "987654321") (A "")) = 2 /\
+  prop_code (CGrpc [(A "x-sig-bin", A "hunter2-s3cr3t")] [] [(A "x-sig-bin", [A "[REDACTED]"])]) = 3 /\
+  prop_code (CGrpc [(A "x-sig-bin", A "hunter2-s3cr3t")] [] [(A "x-sig-bin", [A "hunter2-s3cr3t"])]) = 0 /\
+  prop_code (CFail false [(A "Authorization", A "Bearer hunter2-s3cr3t")] (A "refused") (A "GET (headers: map[Authorization:[Bearer hunter2-s3cr3t]]): refused")) = 4 /\
+  prop_code (CTls 0 1 0 1 4) = 3.
 Proof. vm_compute. repeat split. Qed.
